@@ -785,6 +785,14 @@ def equality_pool(tmpdir):
     lines.append("\t".join(BASE + ["extra1", "extra2"]))
     lines.append("\t".join(BASE + ["extra1\textra2"]))
     lines.append("\t".join(BASE[:8]))
+    # printed lines that differ only in white space at the END of the line are different lines
+    lines.append("\t".join(BASE) + " ")
+    lines.append("\t".join(BASE) + "\u00a0")
+    lines.append("\t".join(BASE + ["extra1 "]))
+    lines.append("\t".join(BASE + ["extra1", ""]))
+    lines.append("\t".join(BASE + [""]))
+    lines.append("\t".join(BASE[:8] + [""]))
+    lines.append("\t".join(BASE[:8] + ["", ""]))
     lines = list(dict.fromkeys(lines))
     pool = []
     for l in lines:
